@@ -45,6 +45,19 @@ var solverCfgs = []solverCfg{
 }
 
 func (vc *VC) smtText(o *Obligation, withModel bool) string {
+	return vc.smtTextV(o, withModel, true)
+}
+
+func (vc *VC) hasLemmas(o *Obligation) bool {
+	for i := range vc.lemmaIdx {
+		if i < o.NAsserts {
+			return true
+		}
+	}
+	return false
+}
+
+func (vc *VC) smtTextV(o *Obligation, withModel bool, lemmas bool) string {
 	var b strings.Builder
 	b.WriteString(prelude)
 	for _, d := range vc.decls {
@@ -57,7 +70,10 @@ func (vc *VC) smtText(o *Obligation, withModel bool) string {
 	if len(vc.globals) > 1 {
 		fmt.Fprintf(&b, "(assert (distinct %s))\n", strings.Join(vc.globals, " "))
 	}
-	for _, a := range vc.asserts[:o.NAsserts] {
+	for i, a := range vc.asserts[:o.NAsserts] {
+		if !lemmas && vc.lemmaIdx[i] {
+			continue
+		}
 		fmt.Fprintf(&b, "(assert %s)\n", a)
 	}
 	fmt.Fprintf(&b, "; obligation %s\n; %s\n", o.Name, strings.ReplaceAll(o.Src, "\n", " "))
@@ -83,7 +99,18 @@ func (vc *VC) smtGround(o *Obligation) string {
 	return b.String()
 }
 
+var solverSlots = make(chan struct{}, 16)
+
 func runSolver(ctx context.Context, sc solverCfg, file string, timeoutS int) (string, string, float64) {
+	select {
+	case solverSlots <- struct{}{}:
+	case <-ctx.Done():
+		return "unknown", "", 0
+	}
+	defer func() { <-solverSlots }()
+	if ctx.Err() != nil {
+		return "unknown", "", 0
+	}
 	t0 := time.Now()
 	args := sc.cmd(file, timeoutS)
 	cctx, cancel := context.WithTimeout(ctx, time.Duration(timeoutS+2)*time.Second)
@@ -94,13 +121,17 @@ func runSolver(ctx context.Context, sc solverCfg, file string, timeoutS int) (st
 	cmd.Stderr = &out
 	_ = cmd.Run()
 	s := out.String()
-	first := strings.TrimSpace(strings.SplitN(s, "\n", 2)[0])
 	st := "unknown"
-	switch first {
-	case "unsat":
-		st = "unsat"
-	case "sat":
-		st = "sat"
+	// the verdict is the first line that is one; warnings (e.g. about ignored patterns) may precede it
+	for _, ln := range strings.Split(s, "\n") {
+		ln = strings.TrimSpace(ln)
+		if ln == "unsat" || ln == "sat" {
+			st = ln
+			break
+		}
+		if ln == "unknown" || ln == "timeout" || strings.HasPrefix(ln, "(error") {
+			break
+		}
 	}
 	if len(s) > 200000 {
 		s = s[:200000]
@@ -162,6 +193,13 @@ func solveOne(dir string, vc *VC, o *Obligation, timeoutS int, all bool) *SolveR
 			res.Status, res.Solver, res.TimeS, res.Output = st, solverCfgs[0].name, tm, out
 		}
 	}
+	files := []string{file}
+	if vc.hasLemmas(o) {
+		nf := strings.TrimSuffix(file, ".smt2") + ".nolemma.smt2"
+		_ = os.WriteFile(nf, []byte(vc.smtTextV(o, true, false)), 0o644)
+		files = append(files, nf)
+		defer os.Remove(nf)
+	}
 	ctx, cancel := context.WithCancel(context.Background())
 	defer cancel()
 	type r struct {
@@ -170,17 +208,28 @@ func solveOne(dir string, vc *VC, o *Obligation, timeoutS int, all bool) *SolveR
 		out string
 		tm  float64
 	}
-	ch := make(chan r, len(solverCfgs))
+	ch := make(chan r, 2*len(solverCfgs))
 	n := 0
-	for i, sc := range solverCfgs {
-		if !all && i == 0 && timeoutS <= 4 {
-			continue
+	for fi, f := range files {
+		for i, sc := range solverCfgs {
+			if !all && i == 0 && timeoutS <= 4 && fi == 0 {
+				continue
+			}
+			if fi > 0 && i >= 4 {
+				continue // the lemma-free variant: z3 configurations only
+			}
+			n++
+			go func(sc solverCfg, f string, fi int) {
+				st, out, tm := runSolver(ctx, sc, f, timeoutS)
+				if fi > 0 {
+					sc.name += "(no lemmas)"
+					if st == "sat" {
+						st = "unknown" // a model without the lemmas is not a refutation of the full query
+					}
+				}
+				ch <- r{sc, st, out, tm}
+			}(sc, f, fi)
 		}
-		n++
-		go func(sc solverCfg) {
-			st, out, tm := runSolver(ctx, sc, file, timeoutS)
-			ch <- r{sc, st, out, tm}
-		}(sc)
 	}
 	for i := 0; i < n; i++ {
 		x := <-ch
